@@ -298,7 +298,6 @@ void TypeAuditor::OnError(const SemanticEID eid, const StrPos position, const Ex
 void TypeAuditor::Clear() noexcept {
   localVars.clear();
   functionArgs.clear();
-  functionArgsID.clear();
   currentType = {};
 }
 
@@ -341,10 +340,6 @@ bool TypeAuditor::ViFunctionDefinition(Cursor iter) {
     if (!VisitChild(iter, 0)) {
       return false;
     }
-  }
-
-  for (auto n : functionArgsID) {
-    functionArgs.emplace_back(localVars.at(n).arg);
   }
 
   const auto type = ChildType(iter, 1);
@@ -525,7 +520,11 @@ bool TypeAuditor::ViArgument(Cursor iter) {
   }
   const auto guard{ isArgDeclaration.CreateGuard() };
   currentType = domain.value();
-  return VisitChild(iter, 0) && SetCurrent(LogicT{});
+  if (!VisitChild(iter, 0)) {
+    return false;
+  }
+  functionArgs.emplace_back(iter(0).data.ToText(), domain.value());
+  return SetCurrent(LogicT{});
 }
 
 bool TypeAuditor::ViCard(Cursor iter) {
@@ -1210,9 +1209,6 @@ bool TypeAuditor::AddLocalVariable(const std::string& name, const Typification& 
     }
   } else {
     localVars.emplace_back(LocalData{ TypedID{name, type}, 0, 0, true });
-    if (isArgDeclaration) {
-      functionArgsID.emplace_back(localVars.size() - 1U);
-    }
     return true;
   }
 }
